@@ -217,8 +217,7 @@ theorem nextBlock_spec (t : Tap) (h : t.Inv) :
             simp only
             omega
 
-theorem rewind_spec (t : Tap) (h : t.Inv) :
-    OpOk t t.rewind.1 t.rewind.2 0 ∧ t.rewind.2.state = t.state ∧ t.rewind.2.prev = t.prev := by
+theorem rewind_spec (t : Tap) (h : t.Inv) : OpOk t t.rewind.1 t.rewind.2 0 := by
   unfold Tap.rewind
   simp only
   cases t.a.seek (.start 0) with
@@ -226,10 +225,12 @@ theorem rewind_spec (t : Tap) (h : t.Inv) :
     match r with
     | .error e =>
       simp only
-      exact ⟨⟨⟨fun _ hb => by simp at hb, h.st, h.pv⟩, (by tv), by simp⟩, (by tv), (by tv)⟩
+      exact ⟨⟨fun _ hb => by simp at hb, h.st, h.pv⟩, (by tv), by simp⟩
     | .ok _ =>
       simp only
-      exact ⟨⟨⟨fun _ hb => by simp at hb, h.st, h.pv⟩, (by tv), by simp⟩, (by tv), (by tv)⟩
+      refine ⟨⟨fun _ hb => by simp at hb, ?_, (by tv)⟩, (by tv), by simp⟩
+      simp only
+      split <;> trivial
 
 /-- one pass of the state machine from a state that does not read the tape: it breaks out -/
 theorem turn_terminal (t : Tap) (h : t.Inv) (h1 : t.state ≠ .play) (h2 : t.state ≠ .nextByte) :
@@ -243,7 +244,7 @@ theorem turn_terminal (t : Tap) (h : t.Inv) (h1 : t.state ≠ .play) (h2 : t.sta
     have := rewind_spec t h
     generalize t.rewind = r at *
     obtain ⟨r1, t'⟩ := r
-    obtain ⟨⟨i1, i2, i3⟩, _, _⟩ := this
+    obtain ⟨i1, i2, i3⟩ := this
     simp only at i1 i2 i3
     match r1, i2 with
     | .stop o, i2 => exact ⟨_, _, rfl, i1, i2, i3⟩
@@ -401,7 +402,11 @@ theorem fastLoad_spec (mem : Nat → Nat) (t : Tap) (g : FlRegs) (h : t.Inv) :
     have := flLoop_spec mem 65538 t1 g 0 i1 (by omega)
     exact ⟨this.inv, this.fine, by have := this.ticks; omega⟩
 
-theorem stop_inv (t : Tap) (h : t.Inv) : t.stop.Inv := ⟨h.blk, trivial, h.st⟩
+theorem stop_inv (t : Tap) (h : t.Inv) : t.stop.Inv := by
+  unfold Tap.stop
+  split
+  · exact h
+  · exact ⟨h.blk, trivial, h.st⟩
 
 theorem play_inv (t : Tap) (h : t.Inv) : t.play.Inv := by
   unfold Tap.play
@@ -426,10 +431,11 @@ theorem step_spec (mem : Nat → Nat) (t : Tap) (op : TapOp) (h : t.Inv) :
   cases op with
   | play => exact ⟨play_inv t h, rfl, by
       simp only [Tap.step, Tap.play]; split <;> (try split) <;> simp only [TapOp.cost] <;> omega⟩
-  | stop => exact ⟨stop_inv t h, rfl, by simp only [Tap.step, Tap.stop, TapOp.cost]; omega⟩
+  | stop => exact ⟨stop_inv t h, rfl, by
+      simp only [Tap.step, Tap.stop]; split <;> simp only [TapOp.cost] <;> omega⟩
   | rewind =>
     simp only [Tap.step, TapOp.cost]
-    have := (rewind_spec t h).1
+    have := rewind_spec t h
     generalize t.rewind = r at *
     obtain ⟨r1, t'⟩ := r
     match r1, this with
